@@ -250,8 +250,12 @@ class C13(System):
         for x in st.X:
             if x is None: out.append(None); continue
             d = fx.stream_digest(x, ids)
-            out.append((d, ids.setdefault(id(x._imol), len(ids)), getattr(x, '_price', None), x._ID))
-        return (tuple(out), st.m.key(), min(st.nsteps, self.pickle_depth + 1))
+            data = x._imol.data
+            order = tuple(tuple(r.dct) for r in data.rows) if hasattr(data, 'rows') else tuple(data.dct)   # sparse dict INSERTION order
+            out.append((d, ids.setdefault(id(x._imol), len(ids)), getattr(x, '_price', None), x._ID, order))
+        # the packages' index caches are written by every cross-package copy and read by the next one
+        caches = tuple(tuple((repr(k), repr(v)) for k, v in _thermo(pk).chemicals._index_cache.items()) for pk in ('A', 'B'))
+        return (tuple(out), st.m.key(), min(st.nsteps, self.pickle_depth + 1), caches)
 
     # ---- actions -------------------------------------------------------------------------------------------------
     def actions(self, st):
@@ -276,6 +280,22 @@ class C13(System):
                     for f, p, t in self.link_flags: acts.append(('link', i, j, f, p, t))
         if 'unlink' in self.ops:
             for i in live: acts.append(('unlink', i))
+        if 'reorder' in self.ops:
+            # zero a flow and set it again: same values, but the entry moves to the end of the sparse dict
+            for i in live:
+                v = m.view(i)
+                for p in v[1]:
+                    if len(v[2][p]) >= 2: acts.append(('reorder', i, None if m.slots[i]['kind'] == 'S' else p))
+        if 'mutate_flow' in self.ops:
+            for i in live:
+                s = m.slots[i]; v = m.view(i)
+                if s['kind'] == 'S':
+                    cur = v[2][v[1][0]].get(_CAS[_W], 0.0)
+                    acts.append(('flow', i, None, _W, 7.0 if cur != 7.0 else 0.0))
+                else:
+                    for p in v[1][:2]:
+                        cur = v[2][p].get(_CAS[_E], 0.0)
+                        acts.append(('flow', i, p, _E, 7.0 if cur != 7.0 else 0.0))
         if 'mutate' in self.ops:
             for i in live:
                 s = m.slots[i]; v = m.view(i)
@@ -314,7 +334,7 @@ class C13(System):
             what = ('class' if obs[0] != exp[0] else 'phases' if obs[1] != exp[1] else 'T' if obs[3] != exp[3] else
                     'P' if obs[4] != exp[4] else 'flows')
             role = roles.get(k, 'bystander')
-            if role == 'bystander' or op in ('flow', 'mflow', 'T', 'P', 'phase'):
+            if role == 'bystander' or op in ('flow', 'mflow', 'reorder', 'T', 'P', 'phase'):
                 was = before_views.get(k)
                 real_changed = was is not None and okey(obs) != okey(was)
                 model_changed = was is not None and okey(exp) != okey(was)
@@ -430,6 +450,21 @@ class C13(System):
             st.nontriv = shared
             st.nsteps += 1
             return (op, match0['kind'], shared)
+
+        if op == 'reorder':
+            _, i, p = a
+            x = X[i]
+            match0 = dict(kind=klass(m, i))
+            row = x._imol.data if p is None else x._imol.data.rows[x._imol._phase_indexer(p)]
+            ID = x.chemicals.IDs[next(iter(row.dct))]
+            key = ID if p is None else (p, ID)
+            def f():
+                val = float(x.imol[key]); x.imol[key] = 0.0; x.imol[key] = val
+            guarded(f, match0)
+            self._compare(st, op, a, {i: 'target'}, match0, before)
+            st.nontriv = True
+            st.nsteps += 1
+            return (op, match0['kind'])
 
         if op == 'mflow':
             # write v kmol/hr of water THROUGH THE MASS VIEW (v * MW kg/hr); every stream that shares the flows must read it in mol
@@ -813,7 +848,9 @@ _ALLOPS = ('copy', 'proxy', 'flow_proxy', 'copy_like', 'link', 'unlink', 'mutate
 
 SYSTEMS = [
     # kind x kind x package matrix of copy / copy_like (target = stream 0, source = stream 1), followed by mutations (independence)
-    C13('c13.copylike', _ALL, 2, 3, ops=('copy', 'copy_like', 'mutate'), copy_like_pairs={(0, 1), (1, 0), (2, 0), (2, 1), (0, 2), (1, 2)}, tcap_t=400),
+    # cross-package copies after the source's flow dict was refilled in another order (the packages' index caches are state)
+    C13('c13.xpkg', ('Sl_A', 'Sl_B', 'Mgl_A', 'Mgl_B'), 3, 5, ops=('copy_like', 'reorder', 'mutate_flow', 'copy'), tcap_t=60),
+    C13('c13.copylike', _ALL, 2, 3, ops=('copy', 'copy_like', 'mutate', 'reorder'), copy_like_pairs={(0, 1), (1, 0), (2, 0), (2, 1), (0, 2), (1, 2)}, tcap_t=400),
     # links / proxies / unlink / mutation / pickle, all ordered pairs of five templates
     C13('c13.share', _CORE, 2, 3, ops=_ALLOPS, pickle_depth=1, tcap_t=500, views=True),
     # longer histories on a small universe
